@@ -276,9 +276,9 @@ impl Check for Gates {
     }
     fn runs(&self, tier: Tier) -> u64 {
         if tier == Tier::Quick {
-            600
+            6000
         } else {
-            60_000
+            200000
         }
     }
     fn components(&self) -> serde_json::Value {
